@@ -18,7 +18,7 @@ theorem codeAt_of_layout {P : Prog} {pre code post : List LInstr}
     CodeAt P (lsize pre) code := ⟨pre, post, h, rfl, hf⟩
 
 /-- compiler output simulates the Spec (all the pool reasoning discharged) -/
-theorem compile_sim {cfg : CompCfg} {n : Node} {pool pool' : Pool} {code : List LInstr} {F : Val → Prop} {loops : Bool}
+theorem compile_sim {cfg : CompCfg} {n : Node} {pool pool' : Pool} {code : List LInstr} {F : Val → Prop} {loops : Node → Prop}
     {c : Cfg} {P : Prog} (hc : compileNode cfg n pool = .ok (code, pool')) (hF : AliasFree F) (hinv : PoolInv F pool)
     (hfl : FloatsIn F n) (hg : Good loops n) (hK : PoolExt pool' P.consts) (henv : EnvOK c cfg)
     (hloop : LoopCase c P loops) (ctx : Ctx) : Sim c P ctx n code :=
@@ -93,7 +93,7 @@ theorem specRun_eq (sc : SCfg) (cast : Option Nat) (n : Node) (r : R Val) (σ' :
 def RunAgrees (out : R Val × VM) (spec : R Val × SState) : Prop :=
   out.1 = spec.1 ∧ obs out.2 = spec.2 ∧ (∀ v, out.1 = .ok v → out.2.stack = [] ∧ out.2.scopes = [])
 
-theorem run_conforms_gen {cfg : CompCfg} {n : Node} {cp : Compiled} {F : Val → Prop} {loops : Bool} {c : Cfg}
+theorem run_conforms_gen {cfg : CompCfg} {n : Node} {cp : Compiled} {F : Val → Prop} {loops : Node → Prop} {c : Cfg}
     (hc : compileProgram cfg n = .ok cp) (hF : AliasFree F) (hfl : FloatsIn F n) (hg : Good loops n)
     (hfit : FitsU16 cp.code) (henv : EnvOK c cfg) (hloop : LoopCase c (progOf cp) loops) :
     ∃ N, ∀ fuel, N ≤ fuel → RunAgrees (run c (progOf cp) fuel) (Spec.run (specOf c) cfg.cast n) := by
